@@ -504,6 +504,10 @@ def run(ctx):
     check_fchk_packed_arrays(ctx, "R21")
     ctx.rule("R22", "FCIDUMP: the symmetry-unique records written rebuild the full integral arrays when read (evaluated)", "`>=` turned into `>` or a loop bound one short: a class of integrals is never written and comes back as zero")
     check_fcidump_integrals(ctx, "R22")
+    ctx.rule("R23", "FCHK quadrupole: written in the file's component order, read back into the object's (evaluated)", "the reader's permutation used by the writer: xz / yz / zz come back cyclically permuted")
+    from .c03 import check_fchk_moment_order
+
+    check_fchk_moment_order(ctx, "R23")
     ctx.rule("R14", "formats read by splitting at white space are written with a literal separator between neighbouring fields", "for a large system a counter fills its field and touches its neighbour: the written line has fewer tokens and cannot be read back")
     with open(os.path.join(VERIF_DIR, "spec", "layouts.json")) as fh:
         column_formats = set(json.load(fh)) - {"_comment"}
